@@ -197,8 +197,9 @@ func (ps *c04PS) ctRows(c *Ctx, lvl int, mode int) [][]uint64 {
 }
 
 // probeNoise emits a decrypt-and-compare probe.
-// c04Classify names the known root cause a failing decrypt probe falls under (so that findings can be
-// triaged): digit count too small for some q_i at this level, or RNS digits of a key without P.
+// c04Classify names the (formerly exhibited, now fixed: C04-1, C04-2) root cause a failing decrypt probe would
+// fall under, so that a regression is triaged at once: digit count too small for some q_i at this level, or
+// RNS digits of a key without P.
 func c04Classify(ps *c04PS, cfg c04KeyCfg, lvl int, shape []int) string {
 	if cfg.lp <= 0 && cfg.w > 0 {
 		for i := 0; i <= lvl && i < len(shape); i++ {
@@ -512,8 +513,9 @@ func genC04(c *Ctx) {
 
 var _ = ring.Standard
 
-// c04Witness runs the full scenario on the parameter set that exhibits the digit-count defect
-// (primes just above 2^30: round(log2 q) = 30 but bitlen = 31) with bases dividing 30 and one that does not.
+// c04Witness runs the full scenario on the parameter sets that exhibited the three C04 defects before the
+// fixes C04-1/2/3 (the probes stay as regression checks and must hold):
+// primes just above 2^30 (round(log2 q) = 30 but bitlen = 31) with bases dividing 30 and one that does not;
 func c04Witness(c *Ctx) {
 	Q := []uint64{1207959937, 1207960801}
 	_, P, ok := c04Primes(4, nil, []int{36})
@@ -533,8 +535,8 @@ func c04Witness(c *Ctx) {
 		}
 	}
 	// second and third witnesses: a key WITHOUT P and BaseTwoDecomposition = 0 over two primes
-	// (a) the parameters have no P at all: every RNS digit is read from row 0;
-	// (b) the parameters have a P but the key is generated at LevelP = -1: GadgetProduct panics.
+	// (a) the parameters have no P at all (pre-fix: every RNS digit was read from row 0);
+	// (b) the parameters have a P but the key is generated at LevelP = -1 (pre-fix: GadgetProduct panicked).
 	Q2, P2, ok := c04Primes(4, []int{31, 33}, []int{35})
 	if !ok {
 		return
